@@ -25,6 +25,7 @@ def test_names(path):
     return re.findall(r"^func (Test\w+)\(", open(path).read(), re.M)
 
 def evaluate(mdir, args):
+    mdir = os.path.abspath(mdir)
     name = os.path.basename(mdir.rstrip("/"))
     prop = name.split("-")[0]
     res = {"id": name, "property": prop}
